@@ -187,7 +187,7 @@ def strategy():
 
     alpha = "ab" + "Ｅ中" + "̤́" + widths.EXTRA_ZERO + widths.EXTRA_WIDE
     run = st.tuples(st.text(alphabet=alpha, min_size=0, max_size=5), st.sampled_from(FMTS)).map(list)
-    long_run = st.tuples(st.text(alphabet=alpha + "aaab", min_size=10, max_size=70), st.sampled_from(FMTS)).map(list)
+    long_run = st.tuples(st.one_of(st.text(alphabet=alpha + "aaab", min_size=10, max_size=70), st.text(alphabet=alpha + "aaab", min_size=240, max_size=300)), st.sampled_from(FMTS)).map(list)
     return st.fixed_dictionaries({"desc": st.one_of(st.lists(run, min_size=0, max_size=5), st.lists(run, min_size=0, max_size=5),
                                                      st.lists(run, min_size=8, max_size=70), st.lists(long_run, min_size=1, max_size=3),
                                                      st.tuples(st.lists(run, min_size=1, max_size=3), st.integers(2, 3)).map(lambda t: [list(r) for r in t[0]] * t[1])),
